@@ -181,7 +181,7 @@ static Verdict run_flow(const Case &c) {
         const Op &op = c.ops[i];
         Mac mapper = mac_from_u64(0x02AA00000000ULL + (uint64_t)(((op.arg(0) % 24) + 24) % 24));
         uint64_t now = vp_now_ms();
-        auto discover = [&](const Mac &mp, uint16_t gen, bool acking, uint16_t xid, int first) {
+        auto discover = [&](const Mac &mp, uint16_t gen, bool acking, uint16_t xid, int first, int over = 0) {
             // the acknowledged stations: any address may precede this station's own one in the list
             static const uint64_t firsts[] = {0x0600BB000001ULL, 0x000000000000ULL, 0xFFFFFFFFFFFFULL, 0x01005E000001ULL};
             std::vector<Mac> st = {mac_from_u64(firsts[first & 3]), acking ? ic.mac : mac_from_u64(0x0600BB000002ULL)};
@@ -191,10 +191,10 @@ static Verdict run_flow(const Case &c) {
             if (it != md.t.end()) { it->second.last_ms = t; if (acking && !it->second.complete) { it->second.complete = true; md.completed++; } }
             else if (md.t.size() < 16) { md.t[k] = MSess{acking, t}; if (acking) md.completed++; }
             else full_refusals++;
-            rx(i, mk_discover(mp, mp, 0, xid, gen, st), true);
+            rx(i, mk_discover(mp, mp, 0, xid, gen, st, over == 1 ? (long)st.size() + 1 : over == 2 ? 0xFFFF : -1), true);   // the count may exceed what the frame carries: what IS carried counts
         };
         switch (op.kind) {
-            case 1: discover(mapper, op.arg(1) & 1 ? 0x0202 : 5, op.arg(2) & 1, (uint16_t)op.arg(3), (int)op.arg(4)); break;
+            case 1: discover(mapper, op.arg(1) & 1 ? 0x0202 : 5, op.arg(2) & 1, (uint16_t)op.arg(3), (int)op.arg(4), (int)op.arg(5)); break;
             case 7:   // many mappers at once (a: how many, acknowledging, generation selector, first mapper): fills the table, then exceeds it
                 for (int64_t n = 0; n < std::min<int64_t>(op.arg(0), 20) && v.ok; n++)
                     discover(mac_from_u64(0x02AA00000000ULL + (uint64_t)((op.arg(3) + n) % 24)), op.arg(2) & 1 ? 0x0202 : 5, op.arg(1) & 1, (uint16_t)(n + 1), 0);
@@ -274,7 +274,7 @@ int main(int argc, char **argv) {
                 Op o;
                 int k = *gx::range<int>(0, 19);
                 int64_t mp = *gx::chance(85) ? *gx::range<int64_t>(0, 3) : *gx::range<int64_t>(0, 23);
-                if (k <= 5) { o.kind = 1; o.a = {mp, *gx::pick({0, 1}), *gx::pick({0, 0, 1}), *gx::range<int64_t>(0, 3), *gx::pick({0, 0, 0, 1, 2, 3})}; }
+                if (k <= 5) { o.kind = 1; o.a = {mp, *gx::pick({0, 1}), *gx::pick({0, 0, 1}), *gx::range<int64_t>(0, 3), *gx::pick({0, 0, 0, 1, 2, 3}), *gx::pick({0, 0, 0, 1, 2})}; }
                 else if (k == 6) { o.kind = 7; o.a = {*gx::pick({3, 8, 15, 16, 17, 20}), *gx::pick({0, 1, 1}), *gx::pick({0, 1}), *gx::range<int64_t>(0, 23)}; }
                 else if (k <= 8) { o.kind = 2; o.a = {*gx::bnd({1, 9, 10, 11, 40}, 1, 40, 1, 1), mp}; }
                 else if (k == 9) { o.kind = 3; o.a = {mp, *gx::pick({0, 1})}; }
